@@ -154,6 +154,15 @@ func (mr *msgReader) putFlateReader() {
 
 func (mr *msgReader) close() {
 	mr.c.readMu.forceLock()
+	if mr.reading {
+		// The connection is being closed from inside a Read of this reader (a close
+		// frame arrived in the middle of a compressed message): flate and its bufio
+		// reader are still executing further up the stack and must not be handed to
+		// the pools, where another connection would pick them up.
+		mr.flateReader = nil
+		mr.limitReader.r = mr.readFunc
+		mr.flateBufio = nil
+	}
 	mr.putFlateReader()
 	if mr.dict != nil {
 		mr.dict.close()
@@ -392,6 +401,8 @@ type msgReader struct {
 	fin           bool
 	payloadLength int64
 	maskKey       uint32
+	// reading is set while Read is executing the readers below it.
+	reading bool
 
 	// util.ReaderFunc(mr.Read) to avoid continuous allocations.
 	readFunc util.ReaderFunc
@@ -426,7 +437,9 @@ func (mr *msgReader) Read(p []byte) (n int, err error) {
 		return 0, fmt.Errorf("failed to read: %w", net.ErrClosed)
 	}
 
+	mr.reading = true
 	n, err = mr.limitReader.Read(p)
+	mr.reading = false
 	// mr.dict is nil once the connection has been closed, which can happen
 	// inside the Read above when a close frame arrives in the middle of a message.
 	if mr.flate && mr.flateContextTakeover() && mr.dict != nil {
